@@ -19,7 +19,7 @@ RULE = ("E3: BFS with dedup on (index, bitfield, model) over all is_valid/strike
         "(numbers 0..2*size+2 and jumps of size, size+1, 10*size beyond the maximum) from three initialisations, with a "
         "persist/reload probe in every state; E1: every arrival sequence up to length L over genuine requests with numbers "
         "{0,1,2,w-1,w,w+1,3w}, their replays, tag-flipped and far-ahead forgeries, and Echo variants for an uninitialised window, "
-        "through unprotect(); state really lost: a file-backed context accepts 1-3 requests, the process dies, after reload nothing is accepted "
+        "and (initialised window) responses of the peer carrying its own Partial IV, through unprotect(); state really lost: a file-backed context accepts 1-3 requests, the process dies, after reload nothing is accepted "
         "before a fresh Echo exchange")
 ASSUMPTIONS = [
     "stand-in crypto modules as for C11",
@@ -141,13 +141,41 @@ def arrivals(res, w, seq, initialised):
     if not initialised:
         sv.recipient_replay_window = o.ReplayWindow(w, lambda: None)
         sv.echo_recovery = ECHO
+    else:
+        sv.echo_recovery = ECHO                # as a file-backed context has it at all times
     cache = {}
     m = Model(w) if initialised else None      # None: uninitialised
     case = {"family": "arrivals", "window": w, "initialised": initialised, "seq": [list(a) for a in seq]}
     res.evaluations += 1
+    own = 0
     for a in seq:
         kind, n = a[0], a[1]
         echo = None
+        if kind == "resp":
+            # the context in the client role as well: a response of the peer to an own request, carrying the peer's own Partial
+            # IV n (a notification that was overtaken by later requests).  Whatever it is, it is not a request: an initialised
+            # window stays as it is, so nothing accepted before becomes acceptable again.
+            own += 1
+            sv.sender_sequence_number = 5000 + own
+            outer, myrid = sv.protect(Message(code=codes.GET, uri_path=["own"]))
+            cl.recipient_replay_window.initialize_empty()
+            _, prid = cl.unprotect(wire(outer)[0])
+            prid.can_reuse_nonce = False
+            cl.sender_sequence_number = n
+            router, _ = cl.protect(Message(code=codes.CONTENT, payload=b"n"), request_id=prid)
+            before = sv.recipient_replay_window.persist()
+            try:
+                sv.unprotect(wire(router)[0], myrid)
+            except o.ProtectionInvalid:
+                pass
+            except Exception as e:
+                res.violate(Violation("unprotect-raises-other", "ProtectionInvalid or success", core.exc_desc(e), core.site_of(e), case,
+                                      key="resp:%s@%s" % (type(e).__name__, core.site_of(e))))
+                return
+            if sv.recipient_replay_window.persist() != before:
+                res.violate(Violation("response-moved-window", before, sv.recipient_replay_window.persist(), "oscore.py:unprotect", case, key="resp-window"))
+                return
+            continue
         if kind in ("gen", "replay"):
             echo = {"right": ECHO, "wrong": b"stale-echo", None: None}[a[2] if len(a) > 2 else None]
             key = (n, echo)
@@ -213,6 +241,8 @@ def alphabet(w, initialised):
     A += [("forge-tag", n) for n in (1, w, 3 * w)] + [("forge-piv", n) for n in (2, 10 * w)]
     if not initialised:
         A += [("gen", n, "right") for n in (1, w + 1)] + [("gen", 2, "wrong")]
+    else:
+        A += [("resp", 1), ("resp", w)]
     return A
 
 
